@@ -1,14 +1,15 @@
 #!/bin/bash
-# try_patch_all.sh <patch.diff> : apply a patch to /repo, run EVERY check (quick), undo it.  For harmless-change experiments.
+# try_patch_all.sh <patch.diff> : apply a patch to a SCRATCH worktree of /repo, run EVERY check (quick) against it.
 P=$(readlink -f "$1")
-cd /repo || exit 2
-[ -n "$(git status --porcelain)" ] && { echo "/repo is dirty"; exit 2; }
-git apply "$P" || { echo "patch does not apply"; exit 2; }
-trap 'git -C /repo checkout -- . ; git -C /repo clean -fdq' EXIT
+W=/tmp/hrepo_$$
+git -C /repo worktree add --detach $W HEAD -f >/dev/null 2>&1 || exit 2
+trap 'git -C /repo worktree remove --force '$W' >/dev/null 2>&1' EXIT
+git -C $W apply "$P" || { echo "patch does not apply"; exit 2; }
 cd /verif
+n=0
 for p in $(python3 -c "import json; print(' '.join(c['property_id'] for c in json.load(open('MANIFEST.json'))['checks']))"); do
-  out=$(./check $p --tier quick 2>&1); rc=$?
-  [ $rc -ne 0 ] && { echo "ALARM $p: $(echo "$out" | grep -m1 VIOLATION | cut -c1-160)"; r=$(echo "$out" | grep -m1 -o 'replay=[^ ]*' | cut -d= -f2); [ -f "$r" ] && python3 -c "
+  out=$(VERIF_REPO=$W ./check $p --tier quick 2>&1); rc=$?
+  [ $rc -ne 0 ] && { n=$((n+1)); echo "ALARM $p: $(echo "$out" | grep -m1 VIOLATION | cut -c1-160)"; r=$(echo "$out" | grep -m1 -o 'replay=[^ ]*' | cut -d= -f2); [ -f "$r" ] && python3 -c "
 import json; o=json.load(open('$r')); print('    ', (o.get('what') or (o.get('no_longer_checks') or [{}])[0].get('detail',''))[:400])"; }
 done
-echo "done $(basename $(dirname $P))"
+echo "done $(basename $(dirname $P)) alarms=$n"
